@@ -71,3 +71,37 @@ def observe_steps(call, val, kind_of, names=("field_first_parse", "data_first_pa
     finally:
         sys.settrace(old)
     return steps
+
+
+def observe_contexts(call):
+    """every RuntimeContext created while call() runs: [parent (1-based position in this list, 0 = none), routeNone, falsy, depth]"""
+    out, index = [], {}
+
+    def local(frame, event, arg):
+        if event == "return":
+            loc = frame.f_locals
+            me = loc.get("self")
+            if me is not None and hasattr(me, "depth"):
+                par = loc.get("context")
+                route = loc.get("route")
+                index[id(me)] = len(out) + 1
+                out.append({"parent": index.get(id(par), 0) if par is not None else 0, "routeNone": route is None,
+                            "falsy": route is not None and not route, "depth": me.depth, "_keep": me})      # _keep: ids stay unique
+        return local
+
+    def tracer(frame, event, arg):
+        if event == "call" and frame.f_code.co_name == "__init__" and frame.f_code.co_filename.endswith("parser/options.py") \
+                and type(frame.f_locals.get("self")).__name__ == "RuntimeContext":
+            return local
+        return None
+    old = sys.gettrace()
+    sys.settrace(tracer)
+    try:
+        try:
+            call()
+        except Exception:
+            pass
+    finally:
+        sys.settrace(old)
+    # a context whose parent was created before tracing started is treated as a root with the parent's depth unknown: dropped
+    return [{k: v for k, v in e.items() if k != "_keep"} for e in out]
